@@ -1,7 +1,7 @@
 SPECIFICATION GenSpec
 CONSTANTS
   Users = {"u1", "u2"}
-  Contents = {"a", "a~1", "a+a~1", "a+a", "a^md5+a", "b+a", "a+b", "b~e+b~L+b+b^md5"}
+  Contents = {"a", "a~1", "a+a~1", "a+a", "a^md5+a", "b+a", "a+b", "b~e+b~L+b+b^md5", "a~w+a", "b~c+b~w"}
   MaxMsgs = 2
   MaxRec = 40
   MaxTx = 40
